@@ -16,6 +16,13 @@ Tie:  G  Gen/BufProgs.lean is regenerated from /repo (harness/facts_bufprog.py):
          on the real xarray (run_wrapper_probes); the fixture dimension `meta` of a case says which coordinates (scalar,
          2-D auxiliary, non-index 1-D, datetime / string scalars, coordinate attrs; every dtype and layout) and which attrs
          (plain, nested, array-valued, not deep-copyable) the rasters carry.
+      backend (round 3): Gen/DaskKinds.lean (harness/facts_daskkind.py) holds the kind program of the Dask path of every raster
+         function; Props/C10.lean proves the kind checker sound and that every such path returns a dask collection; the tables
+         the kind translator trusts are probed here on real dask (run_kind_probes).
+      streams (round 3): main (above), backend (Dask-backed inputs of every chunking class x kernel shapes up to 7x5: Dask in ->
+         lazy Dask out that computes to the input's shape, NumPy in -> NumPy out), edge (rejected and boundary inputs: the deep
+         snapshot of every argument is compared whether the call returned or raised), targeted (a rejected program's guards --
+         the branch conditions of the offending store, harvested by facts_bufprog -- drive the arguments).
 Oracle (written from the property statement, with its documented exceptions only): the same observation.  Inputs are
 compared with a recursive snapshot whether the call returned or raised; the output's cells, coordinates and attrs arrays
 are checked with np.shares_memory against every buffer of every argument (index coordinates: only if writeable) and
@@ -59,6 +66,9 @@ EXTRA_ATTRS = {"focal.hotspots": {"unit"}}
 VIEWS = {"zonal.trim", "zonal.crop", "convolution.custom_kernel", "utils.get_dataarray_resolution"}
 INPLACE = {"zonal.apply": "values"}          # updates `values` in place by contract
 WIDENS = {"viewshed.viewshed": "raster"}     # may widen the input's dtype without changing a value
+# raster functions that define their own shape (documented exceptions) but still keep the input's array backend
+BACKEND_ONLY = {"focal.focal_stats": "agg", "multispectral.true_color": "r", "perlin.perlin": "agg",
+                "terrain.generate_terrain": "agg"}
 SAME_SHAPE = {"local." + f: None for f in ("cell_stats", "combine", "lesser_frequency", "equal_frequency",
                                            "greater_frequency", "lowest_position", "highest_position",
                                            "popularity", "rank")}
@@ -71,18 +81,19 @@ SLOW = {"proximity.proximity", "proximity.allocation", "proximity.direction", "v
 
 
 # ------------------------------------------------------------------------------------------------ inputs
-def base_values(rng, kind):
+def base_values(rng, kind, shape=(H, W)):
+    h, w = shape
     if kind == "zones":
-        v = [[(i // 3) * 2 + (j // 4) for j in range(W)] for i in range(H)]
-        return np.array(v, dtype=np.float64)
+        v = [[(i // 3) * 2 + (j // 4) for j in range(w)] for i in range(h)]
+        return np.array(v, dtype=np.float64).reshape(h, w)
     if kind == "targets":
-        a = np.zeros((H, W))
-        for _ in range(3):
-            a[rng.randrange(H), rng.randrange(W)] = rng.randrange(1, 4)
+        a = np.zeros((h, w))
+        for _ in range(3 if h * w else 0):
+            a[rng.randrange(h), rng.randrange(w)] = rng.randrange(1, 4)
         return a
     if kind == "layer":
-        return np.array([[rng.randrange(1, 5) for _ in range(W)] for _ in range(H)], dtype=np.float64)
-    return np.array([[rng.randrange(0, 60) for _ in range(W)] for _ in range(H)], dtype=np.float64)
+        return np.array([[rng.randrange(1, 5) for _ in range(w)] for _ in range(h)], dtype=np.float64).reshape(h, w)
+    return np.array([[rng.randrange(0, 60) for _ in range(w)] for _ in range(h)], dtype=np.float64).reshape(h, w)
 
 
 def lay_out(a, layout):
@@ -127,12 +138,22 @@ def draw_meta(rng, attrs=None, coords=None):
                 attrs=attrs or rng.choice(ATTR_STYLES))
 
 
-def mk_coords(meta, tag):
-    """-> (coords mapping for the DataArray constructor, {coordinate name: owner of its memory})"""
+def mk_coords(meta, tag, shape=(H, W), coordspec=None, dims=("y", "x")):
+    """-> (coords mapping for the DataArray constructor, {coordinate name: owner of its memory}).  `coordspec` = explicit
+    values of the two index coordinates (edge stream: descending / non-monotonic / out-of-range / threshold-crossing …),
+    `dims` = the names of the two dimensions"""
     import xarray as xr
-    ys, xs = np.linspace(5.0, 0.0, H), np.linspace(0.0, 6.0, W)
+    H, W = shape
+    yd, xd = dims
+    ys, xs = np.linspace(H - 1.0, 0.0, H), np.linspace(0.0, W - 1.0, W)
+    if coordspec is not None:
+        cdt = coordspec.get("dtype", "float64")
+        if coordspec.get("y") is not None:
+            ys = np.array(coordspec["y"], dtype=cdt)
+        if coordspec.get("x") is not None:
+            xs = np.array(coordspec["x"], dtype=cdt)
     if meta is None:            # the fixture of the first round: two index and two scalar coordinates
-        return {"y": ys, "x": xs, "band": sum(map(ord, tag)) % 97, "spatial_ref": 0}, {}
+        return {yd: ys, xd: xs, "band": sum(map(ord, tag)) % 97, "spatial_ref": 0}, {}
     feats, cd, cl = meta["coords"], meta["cdtype"], meta["clayout"]
     cattrs = "cattrs" in feats
     owners = {}
@@ -145,19 +166,20 @@ def mk_coords(meta, tag):
         owners[name] = owner
         return xr.Variable(dims, arr, attrs=attrs if cattrs else None)
 
-    coords = {"y": xr.Variable(("y",), ys, attrs={"units": "m", "axis": "Y"} if cattrs else None),
-              "x": xr.Variable(("x",), xs, attrs={"units": "m", "axis": "X"} if cattrs else None)}
+    coords = {yd: xr.Variable((yd,), ys, attrs={"units": "m", "axis": "Y"} if cattrs else None),
+              xd: xr.Variable((xd,), xs, attrs={"units": "m", "axis": "X"} if cattrs else None)}
     if "scalar" in feats:
         coords["band"] = var("band", (), sum(map(ord, tag)) % 97, {"long_name": "band"})
         coords["spatial_ref"] = xr.Variable((), np.array(0, dtype="int64"), attrs={
             "crs_wkt": "GEOGCS[\"WGS 84\"]", "GeoTransform": "0 1 0 5 0 -1", "towgs84": [0, 0, 0]} if cattrs else None)
     if "aux2d" in feats:
         ii, jj = np.meshgrid(np.arange(H), np.arange(W), indexing="ij")
-        coords["lon"] = var("lon", ("y", "x"), jj + 10 * ii, {"standard_name": "longitude", "valid_range": [0, 60]})
-        coords["lat"] = var("lat", ("y", "x"), 100 - 3 * ii - jj, {"standard_name": "latitude"})
+        a1, a2 = ("lon", "lat") if "lon" not in dims else ("aux_lon", "aux_lat")
+        coords[a1] = var(a1, (yd, xd), jj + 10 * ii, {"standard_name": "longitude", "valid_range": [0, 60]})
+        coords[a2] = var(a2, (yd, xd), 100 - 3 * ii - jj, {"standard_name": "latitude"})
     if "nonindex1d" in feats:
-        coords["row_id"] = var("row_id", ("y",), (np.arange(H) * 3) % 7 + 1, {"comment": "not an index"})
-        coords["col_weight"] = var("col_weight", ("x",), np.arange(W) + 2, None)
+        coords["row_id"] = var("row_id", (yd,), (np.arange(H) * 3) % 7 + 1, {"comment": "not an index"})
+        coords["col_weight"] = var("col_weight", (xd,), np.arange(W) + 2, None)
     if "time" in feats:
         coords["time"] = xr.Variable((), np.array("2020-01-02T03:04:05", dtype="datetime64[s]"))
         coords["tile"] = xr.Variable((), np.array("h12v04"))
@@ -190,24 +212,31 @@ def mk_attrs(meta, tag):
     return base
 
 
-def mk_raster(rng, dtype, layout, backend, kind="elev", nan=True, rname=None, inf=False, tag="r", chunks=None, meta=None):
-    """-> (raster, owner of the cells' memory, {coordinate name: owner of its memory})"""
+def mk_raster(rng, dtype, layout, backend, kind="elev", nan=True, rname=None, inf=False, tag="r", chunks=None, meta=None,
+              shape=None, coordspec=None, dims=None):
+    """-> (raster, owner of the cells' memory, {coordinate name: owner of its memory}).  `chunks`: a uniform (a, b) or the
+    explicit block sizes per axis ((3, 3, 1), (4, 4, 4, 1))"""
     import xarray as xr
-    vals = base_values(rng, kind).astype(dtype)
-    if np.dtype(dtype).kind == "f" and nan and kind == "elev" and rng.random() < 0.5:
-        vals[rng.randrange(H), rng.randrange(W)] = np.nan
+    shape = tuple(shape) if shape else (H, W)
+    dims = tuple(dims) if dims else ("y", "x")
+    h, w = shape
+    vals = base_values(rng, kind, shape).astype(dtype)
+    if np.dtype(dtype).kind == "f" and nan and kind == "elev" and rng.random() < 0.5 and h * w:
+        vals[rng.randrange(h), rng.randrange(w)] = np.nan
         if inf and rng.random() < 0.5:
-            vals[rng.randrange(H), rng.randrange(W)] = rng.choice([np.inf, -np.inf])
-    elif np.dtype(dtype).kind == "f" and inf and kind == "elev" and rng.random() < 0.6:
-        vals[rng.randrange(H), rng.randrange(W)] = rng.choice([np.inf, -np.inf])      # +-inf without a NaN cell
+            vals[rng.randrange(h), rng.randrange(w)] = rng.choice([np.inf, -np.inf])
+    elif np.dtype(dtype).kind == "f" and inf and kind == "elev" and rng.random() < 0.6 and h * w:
+        vals[rng.randrange(h), rng.randrange(w)] = rng.choice([np.inf, -np.inf])      # +-inf without a NaN cell
     arr, owner = lay_out(vals, layout)
     data = arr
     if backend == "dask":
         import dask.array as da
         ch = rng.choice([(3, 4), (2, 3), (6, 7), (4, 2)])
-        data = da.from_array(arr, chunks=chunks or ch)
-    coords, cowners = mk_coords(meta, tag)
-    r = xr.DataArray(data, dims=["y", "x"], name=rname, coords=coords, attrs=mk_attrs(meta, tag))
+        if chunks is not None:
+            ch = tuple(tuple(c) if isinstance(c, (list, tuple)) else c for c in chunks)
+        data = da.from_array(arr, chunks=ch)
+    coords, cowners = mk_coords(meta, tag, shape, coordspec, dims)
+    r = xr.DataArray(data, dims=list(dims), name=rname, coords=coords, attrs=mk_attrs(meta, tag))
     return r, owner, cowners
 
 
@@ -219,6 +248,11 @@ class Inputs:
         self.owners = {}
 
     def raster(self, name, rng, case, **kw):
+        for k in ("shape", "coordspec", "dims"):
+            if case.get(k) is not None:
+                kw.setdefault(k, case[k])
+        if case.get("chunks") is not None:
+            kw["chunks"] = case["chunks"]          # the chunking is a dimension of the case (backend stream)
         r, o, co = mk_raster(rng, case["dtype"], case["layout"], case["backend"], tag=name, meta=case.get("meta"), **kw)
         self.args[name] = r
         self.owners[name] = o
@@ -269,13 +303,14 @@ def build(case):
         I.plain("new_values", [1, 2, 3, 4])
     elif key in ("convolution.convolution_2d", "focal.apply", "focal.hotspots", "focal.focal_stats"):
         I.raster("agg" if key in ("convolution.convolution_2d", "focal.focal_stats") else "raster", rng, case)
-        I.array("kernel", np.array([[0., 1, 0], [1, 1, 1], [0, 1, 0]]))
+        I.array("kernel", mk_kernel(case, np.array([[0., 1, 0], [1, 1, 1], [0, 1, 0]])))
         if key == "focal.focal_stats":
             I.plain("stats_funcs", ["mean", "max", "sum"])
     elif key == "convolution.convolve_2d":
-        r, o, _ = mk_raster(rng, case["dtype"], case["layout"], case["backend"])
+        r, o, _ = mk_raster(rng, case["dtype"], case["layout"], case["backend"], shape=case.get("shape"),
+                            chunks=case.get("chunks"))
         I.args["data"], I.owners["data"] = r.data, o
-        I.array("kernel", np.ones((3, 3)))
+        I.array("kernel", mk_kernel(case, np.ones((3, 3))))
     elif key == "convolution.custom_kernel":
         I.array("kernel", lay_out(np.ones((3, 3)).astype(case["dtype"]), case["layout"])[0])
     elif key in ("convolution.calc_cellsize", "utils.get_xy_range", "utils.calc_res", "analytics.summarize_terrain"):
@@ -375,7 +410,77 @@ def build(case):
         import inspect
         ps = list(inspect.signature(f).parameters.values())
         I.raster(ps[0].name, rng, case)
+    # ---- the edge / targeted streams: parameter values and structural malformations on top of the recipe
+    for k, v in (case.get("params") or {}).items():
+        v = decode_param(v)
+        if k in I.args:
+            if isinstance(v, np.ndarray):
+                I.array(k, v)
+            else:
+                I.owners.pop(k, None)
+                I.args[k] = v
+        else:
+            kw[k] = v
+    if case.get("malform"):
+        malform(I, case["malform"], rng)
     return f, I, kw
+
+
+def mk_kernel(case, default):
+    """the kernel of a case: explicit values (backend / edge streams) or the recipe's default"""
+    k = case.get("kernel")
+    if k is None:
+        return default
+    return np.array(k, dtype=np.float64)
+
+
+def decode_param(v):
+    """JSON value of a case -> argument: {"__nd__": nested list, "dtype": …} is an ndarray, {"__tuple__": […]} a tuple"""
+    if isinstance(v, dict) and "__nd__" in v:
+        return np.array(v["__nd__"], dtype=v.get("dtype", "float64"))
+    if isinstance(v, dict) and "__tuple__" in v:
+        return tuple(decode_param(x) for x in v["__tuple__"])
+    return v
+
+
+def malform(I, how, rng):
+    """structural malformations of the rasters of a call (edge stream).  The memory owners stay registered, so the
+    before/after comparison still covers the buffers the malformed views are taken from."""
+    import xarray as xr
+    names = [n for n, v in I.args.items() if isinstance(v, xr.DataArray)]
+    if not names:
+        return
+    first = names[0]
+    r = I.args[first]
+    if how == "1d":
+        I.args[first] = r.isel({r.dims[0]: 0})
+    elif how == "3d":
+        I.args[first] = r.expand_dims(layer=[0, 1])
+    elif how == "transposed":
+        I.args[first] = r.transpose(*reversed(r.dims))
+    elif how == "empty":
+        I.args[first] = r.isel({r.dims[0]: slice(0, 0)})
+    elif how == "single-cell":
+        I.args[first] = r.isel({r.dims[0]: slice(0, 1), r.dims[1]: slice(0, 1)})
+    elif how == "single-row":
+        I.args[first] = r.isel({r.dims[0]: slice(0, 1)})
+    elif how == "single-column":
+        I.args[first] = r.isel({r.dims[1]: slice(0, 1)})
+    elif how == "shape-mismatch":
+        # the last raster of a multi-raster call is one row short
+        last = names[-1]
+        q = I.args[last]
+        I.args[last] = q.isel({q.dims[0]: slice(0, q.shape[0] - 1)})
+    elif how == "coords-mismatch":
+        # the last raster has the same shape but other coordinate values
+        last = names[-1]
+        q = I.args[last]
+        I.args[last] = q.assign_coords({q.dims[1]: np.asarray(q[q.dims[1]].values) + 0.5})
+    elif how == "no-coords":
+        I.args[first] = r.drop_vars([c for c in r.coords])
+    elif how == "not-a-raster":
+        I.args[first] = np.asarray(np_of(r.data))
+        I.owners[first] = I.args[first]
 
 
 # ------------------------------------------------------------------------------------------------ snapshots
@@ -684,14 +789,35 @@ def observe(case):
     key = case["func"]
     before = {n: snapshot(v) for n, v in I.args.items()}
     owners_before = {n: np.array(o, copy=True) for n, o in I.owners.items()}
+    tasks = [0]
+    computed = None
     try:
         with warnings.catch_warnings():
             warnings.simplefilter("ignore")
-            out = f(**I.args, **kw)
+            if case["backend"] == "dask":
+                from dask.callbacks import Callback
+                with Callback(pretask=lambda *a, **k: tasks.__setitem__(0, tasks[0] + 1)):
+                    out = f(**I.args, **kw)
+            else:
+                out = f(**I.args, **kw)
     except Exception as ex:
         out = None
         res["status"] = "raised:" + type(ex).__name__
         res["notes"].append(str(ex)[:160])
+    if out is not None and case["backend"] == "dask":
+        # a lazy result is computed here, before the inputs are compared: whatever the graph does to them shows
+        res["tasks_during_call"] = tasks[0]
+        if tasks[0]:
+            res["notes"].append("computes part of the graph during the call")
+        lazy = getattr(out, "data", None)
+        if hasattr(lazy, "dask") and hasattr(lazy, "compute") and not isinstance(lazy, np.ndarray):
+            try:
+                with warnings.catch_warnings():
+                    warnings.simplefilter("ignore")
+                    computed = np.asarray(lazy.compute())
+            except Exception as ex:
+                res["status"] = "raised-at-compute:" + type(ex).__name__
+                res["notes"].append(str(ex)[:160])
     # (1) inputs unchanged -- values, coords (values, dtype, attrs), attrs (recursively), dims, name; also when the
     #     call raised
     for n, v in I.args.items():
@@ -759,7 +885,22 @@ def observe(case):
                     {k: v for k, v in b["attrs"].items() if k not in extra},
                     {k: v for k, v in oattrs.items() if k not in extra}))
             if type(out.data).__name__ != b["backend"]:
-                res["identity"].append(f"backend {type(out.data).__name__} != {b['backend']}")
+                res["identity"].append(f"backend {type(out.data).__module__}.{type(out.data).__name__} != {b['backend']}"
+                                       + (f" (input chunks {b['chunks']})" if b.get("chunks") else ""))
+            elif b.get("chunks") is not None:
+                # Dask in -> Dask out: lazy until computed, blocks that add up to the input's shape, and the computed
+                # array really has that shape
+                ch = getattr(out.data, "chunks", None)
+                if ch is None or tuple(sum(c) for c in ch) != tuple(out.shape):
+                    res["identity"].append(f"chunks {ch} do not add up to the shape {tuple(out.shape)}")
+                if computed is not None and tuple(computed.shape) != tuple(out.shape):
+                    res["identity"].append(f"the result computes to shape {tuple(computed.shape)}, declared {tuple(out.shape)}")
+        elif key in BACKEND_ONLY and BACKEND_ONLY[key] in before and before[BACKEND_ONLY[key]].get("kind") == "DataArray":
+            # own shape by contract (generators, focal_stats, true_color), but still the input's array backend
+            b = before[BACKEND_ONLY[key]]
+            if type(out.data).__name__ != b["backend"]:
+                res["identity"].append(f"backend {type(out.data).__module__}.{type(out.data).__name__} != {b['backend']}"
+                                       + (f" (input chunks {b['chunks']})" if b.get("chunks") else ""))
         elif key in SAME_SHAPE:
             shp = before["raster"]["vars"]["a"]["shape"]
             if tuple(out.shape) != shp:
@@ -841,21 +982,75 @@ def observe_sequence(case):
     return res
 
 
+CASE_TIME_LIMIT = 120       # seconds of one observation before it is abandoned (python-level loops only)
+
+
+class CaseTimeout(Exception):
+    pass
+
+
+def empty_result(c, status):
+    return dict(case=c, status=status, modified=[], owner_modified=[], shares=[], shares_meta=[], probe_modified=[],
+                identity=[], notes=[])
+
+
 def run_chunk(cases):
+    import signal
     out = []
+
+    def on_alarm(signum, frame):
+        raise CaseTimeout()
+    try:
+        signal.signal(signal.SIGALRM, on_alarm)
+        armed = True
+    except Exception:
+        armed = False
     for c in cases:
         try:
+            if armed:
+                signal.alarm(CASE_TIME_LIMIT)
             out.append(observe_sequence(c) if c.get("kind") == "sequence" else observe(c))
+        except CaseTimeout:
+            out.append(empty_result(c, "harness-timeout"))
         except Exception:
-            out.append(dict(case=c, status="harness-error:" + traceback.format_exc()[-400:], modified=[],
-                            owner_modified=[], shares=[], shares_meta=[], probe_modified=[], identity=[], notes=[]))
+            out.append(empty_result(c, "harness-error:" + traceback.format_exc()[-400:]))
+        finally:
+            if armed:
+                signal.alarm(0)
     return out
 
 
+def _chunk_child(conn, cases):
+    try:
+        try:
+            # a thread pool inherited through fork has no threads: make dask create its own in this process
+            import dask.threaded
+            dask.threaded.default_pool = None
+            dask.threaded.pools.clear()
+        except Exception:
+            pass
+        import time
+        t0, c0 = time.time(), time.process_time()
+        out = run_chunk(cases)
+        if out:
+            out[0]["chunk_cost"] = dict(func=cases[0].get("func", "sequence"), backend=cases[0]["backend"], n=len(cases),
+                                        wall=round(time.time() - t0, 1), cpu=round(time.process_time() - c0, 1))
+        conn.send(out)
+    finally:
+        conn.close()
+
+
+CHUNK_TIME_LIMIT = 600      # seconds before the process of a chunk is killed (native loops the alarm cannot reach)
+
+
 def run_parallel(cases, workers=None):
-    """cases grouped by function (JIT reuse), spread over processes"""
+    """cases grouped by function (one JIT compilation per group), one process per group, at most `workers` at a time.
+    A process that dies (a malformed input crashed native code) or hangs only loses its own group: the group is re-run
+    case by case and the case that kills its process again is recorded as `worker-crashed` -- a crash on a malformed
+    input is not a statement about C10, and it must not turn the check into an infrastructure failure."""
     import multiprocessing as mp
-    from concurrent.futures import ProcessPoolExecutor
+    import time
+    from multiprocessing.connection import wait
     groups = {}
     for c in cases:
         groups.setdefault((c.get("func", "sequence"), c["backend"]), []).append(c)
@@ -864,13 +1059,43 @@ def run_parallel(cases, workers=None):
         step = 12 if g[0].get("func") not in SLOW else 4
         if g[0].get("kind") == "sequence":
             step = 3
+        if g[0].get("stream") in ("edge", "targeted"):
+            step = 24 if g[0].get("func") not in SLOW else 16      # mostly early rejections: cheap
         chunks.extend(g[i:i + step] for i in range(0, len(g), step))
     chunks.sort(key=lambda ch: -len(ch) * (5 if ch[0].get("func") in SLOW or ch[0].get("kind") == "sequence" else 1))
     workers = workers or min(14, max(2, (os.cpu_count() or 4) - 2))
-    results = []
-    with ProcessPoolExecutor(max_workers=workers, mp_context=mp.get_context("fork")) as ex:
-        for r in ex.map(run_chunk, chunks):
-            results.extend(r)
+    ctx = mp.get_context("fork")
+    results, queue, running = [], list(chunks), {}
+    while queue or running:
+        while queue and len(running) < workers:
+            ch = queue.pop(0)
+            parent, child = ctx.Pipe(duplex=False)
+            p = ctx.Process(target=_chunk_child, args=(child, ch), daemon=True)
+            p.start()
+            child.close()
+            running[parent] = (p, ch, time.time())
+        ready = wait(list(running), timeout=1.0)
+        for conn in list(running):
+            p, ch, t0 = running[conn]
+            lost = None
+            if conn in ready:
+                try:
+                    results.extend(conn.recv())
+                except (EOFError, OSError):
+                    lost = "worker-crashed"
+            elif time.time() - t0 > CHUNK_TIME_LIMIT:
+                p.terminate()
+                lost = "harness-timeout"
+            else:
+                continue
+            conn.close()
+            p.join(5)
+            del running[conn]
+            if lost:
+                if len(ch) > 1:
+                    queue = [[c] for c in ch] + queue
+                else:
+                    results.append(empty_result(ch[0], lost))
     return results
 
 
@@ -1258,6 +1483,113 @@ def gen_report():
     return rep.get("facts:BufProgs.lean", {"entries": {}})
 
 
+def kind_report():
+    rep = json.load(open(os.path.join(LEAN, "XrsVerif", "Gen", "report.json")))
+    return rep.get("facts:DaskKinds.lean", {"entries": {}})
+
+
+def dask_kind_verdicts():
+    """driver verdicts on the kind programs of the Dask paths: name -> dict(ok, kinds)"""
+    try:
+        d = Driver()
+        names = [n for n in d.ask(["daskkinds"])[0].split(",") if n]
+        replies = d.ask([f"daskkind name={n}" for n in names]) if names else []
+    except Exception as ex:
+        return {}, repr(ex)
+    out = {}
+    for n, line in zip(names, replies):
+        if not line.startswith("ok="):
+            continue
+        kv = dict(t.split("=", 1) for t in line.split(" "))
+        out[n] = dict(ok=kv["ok"] == "true", kinds=kv.get("kinds", ""), size=int(kv.get("size", "0")))
+    return out, None
+
+
+def run_kind_probes(r, krep):
+    """the two tables the kind translator trusts, on the real dask: a numpy function it treats as dispatched hands back a
+    dask collection for a dask argument (and an in-memory array for an in-memory one); the methods it treats as
+    backend-preserving do preserve it; the calls it treats as materialising do materialise"""
+    import warnings
+    import dask
+    import dask.array as da
+    import facts_daskkind as fk
+    with dask.config.set(scheduler="synchronous"):      # no thread pool in the process the workers are forked from
+        _run_kind_probes(r, krep, da, fk, warnings)
+
+
+def _run_kind_probes(r, krep, da, fk, warnings):
+    base = np.arange(12, dtype="f8").reshape(3, 4) + 1.0
+    lazy = da.from_array(base, chunks=(2, 3))
+    np_used, meth_used = set(), set()
+    for e in krep.get("entries", {}).values():
+        np_used.update(e.get("np_used", []))
+        meth_used.update(e.get("meth_used", []))
+    is_lazy = lambda v: any(isinstance(x, da.Array) for x in (v if isinstance(v, (tuple, list)) else [v]))
+    probed = 0
+    for name in sorted(np_used):
+        fn = np
+        for part in name.split("."):
+            fn = getattr(fn, part, None)
+        if fn is None:
+            continue
+        got = None
+        for args in ((lazy,), (lazy, lazy), (lazy > 2, lazy, 0.0), (lazy, 50), (lazy, 1), ([lazy, lazy],), (lazy, [2.0, 5.0])):
+            try:
+                with warnings.catch_warnings():
+                    warnings.simplefilter("ignore")
+                    got = fn(*args)
+                break
+            except Exception:
+                continue
+        if got is None:
+            r.tag("kindprobe-not-callable:" + name)
+            continue
+        probed += 1
+        r.case(f"kindprobe:np.{name}", nontrivial=True, tags=["kindprobe:dispatch"])
+        if not is_lazy(got):
+            r.disagree("kind-table", dict(function="np." + name), f"returns {type(got).__name__} for a dask argument",
+                       "facts_daskkind.NP_DISPATCH: a dask collection as soon as one operand is one")
+    meth_calls = {"astype": lambda a: a.astype("f4"), "reshape": lambda a: a.reshape(-1), "ravel": lambda a: a.ravel(),
+                  "flatten": lambda a: a.flatten(), "transpose": lambda a: a.transpose(), "squeeze": lambda a: a.squeeze(),
+                  "copy": lambda a: a.copy(), "clip": lambda a: a.clip(0, 5), "round": lambda a: a.round(),
+                  "sum": lambda a: a.sum(), "mean": lambda a: a.mean(), "min": lambda a: a.min(), "max": lambda a: a.max(),
+                  "std": lambda a: a.std(), "var": lambda a: a.var(), "prod": lambda a: a.prod(), "any": lambda a: a.any(),
+                  "all": lambda a: a.all(), "cumsum": lambda a: a.cumsum(axis=0), "dot": lambda a: a.dot(a.T),
+                  "repeat": lambda a: a.repeat(2, axis=0), "swapaxes": lambda a: a.swapaxes(0, 1),
+                  "map_blocks": lambda a: a.map_blocks(lambda x: x), "rechunk": lambda a: a.rechunk((3, 4)),
+                  "map_overlap": lambda a: a.map_overlap(lambda x: x, depth=1, boundary=np.nan),
+                  "argmin": lambda a: a.argmin(), "argmax": lambda a: a.argmax(), "conj": lambda a: a.conj(),
+                  "nonzero": lambda a: a.nonzero(), "view": lambda a: a.view("f8")}
+    for name in sorted(meth_used):
+        call = meth_calls.get(name)
+        if call is None:
+            r.tag("kindprobe-not-probed:." + name)
+            continue
+        try:
+            with warnings.catch_warnings():
+                warnings.simplefilter("ignore")
+                got = call(lazy)
+        except Exception as ex:
+            r.tag("kindprobe-error:." + name)
+            continue
+        probed += 1
+        r.case(f"kindprobe:.{name}", nontrivial=True, tags=["kindprobe:method"])
+        if not is_lazy(got):
+            r.disagree("kind-table", dict(method=name), f"returns {type(got).__name__} for a dask receiver",
+                       "facts_daskkind.METH_SAME: stays within the receiver's backend")
+    for label, call in (("compute", lambda a: a.compute()), ("np.asarray", lambda a: np.asarray(a)),
+                        ("np.array", lambda a: np.array(a)), ("da.compute", lambda a: da.compute(a.min())[0]),
+                        ("DataArray.values", lambda a: __import__("xarray").DataArray(a).values)):
+        got = call(lazy)
+        probed += 1
+        r.case(f"kindprobe:{label}", nontrivial=True, tags=["kindprobe:eager"])
+        if is_lazy(got):
+            r.disagree("kind-table", dict(call=label), "returns a dask collection", "classified as materialising (eager)")
+    r.extra["kind_probes"] = dict(np_dispatch=sorted(np_used), methods=sorted(meth_used), probed=probed,
+                                  tables=dict(np_dispatch=len(fk.NP_DISPATCH), np_eager=len(fk.NP_EAGER),
+                                              meth_same=len(fk.METH_SAME)))
+
+
 def predictions(funcs):
     """driver verdicts on the generated programs: name -> dict(ok, write, ret, unknown, meta, view)"""
     try:
@@ -1313,6 +1645,351 @@ def make_cases(rng, funcs, tier, full=False, only_backend=None):
     return cases
 
 
+# ------------------------------------------------------------------------------------------------ backend stream
+CHUNK_CLASSES = ["single", "cells", "rows", "cols", "ragged", "thin", "uneven", "regular"]
+KERNEL_SHAPES = [(3, 3), (5, 5), (7, 5), (5, 7), (3, 5), (5, 3), (1, 1), (3, 1)]
+WIDE_KERNELS = [(5, 5), (7, 5), (5, 7), (3, 5), (5, 3)]          # a half-width of 2 or 3 along at least one axis
+KERNEL_FUNCS = {"convolution.convolution_2d", "convolution.convolve_2d", "focal.apply", "focal.hotspots",
+                "focal.focal_stats"}
+BIG = (10, 13)
+
+
+def blocks(n, c):
+    return [c] * (n // c) + ([n % c] if n % c else [])
+
+
+def draw_chunks(rng, cls, shape, kshape=(3, 3)):
+    """explicit block sizes per axis of one chunking class.  `thin` is relative to the kernel: blocks thinner than its
+    half-width along an axis (the halo of map_overlap is wider than the block); `ragged`: a remainder block smaller
+    than the others; `uneven`: blocks of unrelated sizes"""
+    h, w = shape
+    if cls == "single":
+        return [[h], [w]]
+    if cls == "cells":
+        return [[1] * h, [1] * w]
+    if cls == "rows":
+        return [[1] * h, [w]]
+    if cls == "cols":
+        return [[h], [1] * w]
+    if cls == "ragged":
+        cy = rng.choice([c for c in range(2, h) if h % c] or [h])
+        cx = rng.choice([c for c in range(2, w) if w % c] or [w])
+        return [blocks(h, cy), blocks(w, cx)]
+    if cls == "thin":
+        ty = rng.randrange(1, max(2, kshape[0] // 2))
+        tx = rng.randrange(1, max(2, kshape[1] // 2))
+        which = rng.choice(["y", "x", "both"])
+        cy = ty if which in ("y", "both") else rng.randrange(max(1, kshape[0] // 2), h + 1)
+        cx = tx if which in ("x", "both") else rng.randrange(max(1, kshape[1] // 2), w + 1)
+        return [blocks(h, cy), blocks(w, cx)]
+    if cls == "uneven":
+        def comp(n):
+            out = []
+            while sum(out) < n:
+                out.append(min(rng.randrange(1, 5), n - sum(out)))
+            return out
+        return [comp(h), comp(w)]
+    return [blocks(h, rng.randrange(2, h + 1)), blocks(w, rng.randrange(2, w + 1))]
+
+
+def draw_kernel(rng, kshape):
+    kh, kw = kshape
+    style = rng.choice(["ones", "binary", "weights"])
+    if style == "ones":
+        k = np.ones(kshape)
+    elif style == "binary":
+        k = np.array([[float(rng.random() < 0.6) for _ in range(kw)] for _ in range(kh)])
+        k[kh // 2, kw // 2] = 1.0
+    else:
+        k = np.array([[rng.randrange(1, 5) / 4.0 for _ in range(kw)] for _ in range(kh)])
+    return k.tolist()
+
+
+def has_dask_path(f):
+    return f not in NUMPY_ONLY and (f in IDENTITY or f in BACKEND_ONLY or f == "convolution.convolve_2d")
+
+
+def make_backend_cases(rng, funcs, tier, only=None, reps=1):
+    """backend identity as a generator dimension: every raster-in/raster-out function with a Dask path x chunking class
+    (single chunk, 1-cell chunks, 1-row / 1-column chunks, ragged remainders, chunks thinner than the kernel half-width,
+    uneven blocks) x kernel shape up to 7x5 for the functions that take a kernel; the same kernels on NumPy input"""
+    cases = []
+    for f in funcs:
+        if not has_dask_path(f) or (only is not None and f not in only):
+            continue
+        for _ in range(reps):
+            if f in KERNEL_FUNCS:
+                plan = [(c, rng.choice(WIDE_KERNELS)) for c in CHUNK_CLASSES]
+                plan += [(c, rng.choice(KERNEL_SHAPES)) for c in (rng.sample(CHUNK_CLASSES, 2) if tier == "quick"
+                                                                  else CHUNK_CLASSES)]
+            elif f in SLOW:
+                plan = [(c, None) for c in (rng.sample(CHUNK_CLASSES, 2) if tier == "quick" and only is None
+                                             else CHUNK_CLASSES)]
+            else:
+                plan = [(c, None) for c in (rng.sample(CHUNK_CLASSES, 3) if tier == "quick" and only is None
+                                             else CHUNK_CLASSES)]
+            for cls, ksh in plan:
+                shape = BIG if (ksh is not None or rng.random() < 0.25) else (H, W)
+                c = dict(func=f, backend="dask", dtype=rng.choice(DTYPES), layout=rng.choice(LAYOUTS),
+                         seed=rng.randrange(1 << 30), meta=draw_meta(rng, attrs=rng.choice(ATTR_STYLES[:3])),
+                         stream="backend", shape=list(shape),
+                         chunkclass=cls, chunks=draw_chunks(rng, cls, shape, ksh or (3, 3)))
+                if ksh is not None:
+                    c["kernel"] = draw_kernel(rng, ksh)
+                cases.append(c)
+            if f in KERNEL_FUNCS:
+                # NumPy in -> NumPy out with the same wide kernels
+                cases.append(dict(func=f, backend="numpy", dtype=rng.choice(DTYPES), layout=rng.choice(LAYOUTS),
+                                  seed=rng.randrange(1 << 30), meta=draw_meta(rng, attrs=rng.choice(ATTR_STYLES[:3])),
+                                  stream="backend", shape=list(BIG), kernel=draw_kernel(rng, rng.choice(WIDE_KERNELS))))
+    return cases
+
+
+# ------------------------------------------------------------------------------------------------ edge stream
+COORD_STYLES = ["descending-x", "ascending-y", "nonmonotonic", "duplicate", "geographic", "lon360", "lon-neg", "lat-out",
+                "nan", "huge", "tiny-step", "int", "threshold"]
+STRUCTURAL = ["1d", "3d", "transposed", "empty", "single-cell", "single-row", "single-column", "no-coords", "not-a-raster"]
+STRUCTURAL_MULTI = ["shape-mismatch", "coords-mismatch"]
+
+
+def coordspec_of(rng, style, shape, thr=None, axis=None, mode=None):
+    """explicit index-coordinate values of one style.  `threshold`: the values of one axis straddle / lie beyond a number
+    the source compares something with (harvested by facts_bufprog.source_hints), the other axis stays in a range every
+    metric accepts"""
+    h, w = shape
+    ys, xs = np.linspace(h - 1.0, 0.0, h), np.linspace(0.0, w - 1.0, w)
+    spec = dict(style=style)
+    if style == "descending-x":
+        xs = xs[::-1]
+    elif style == "ascending-y":
+        ys = ys[::-1]
+    elif style == "nonmonotonic":
+        xs, ys = list(xs), list(ys)
+        rng.shuffle(xs)
+        rng.shuffle(ys)
+    elif style == "duplicate":
+        xs = np.where(np.arange(w) % 2 == 0, xs, xs - 1.0)
+    elif style == "geographic":
+        xs, ys = np.linspace(-170.0, 170.0, w), np.linspace(80.0, -80.0, h)
+    elif style == "lon360":
+        xs, ys = np.linspace(0.0, 350.0, w), np.linspace(80.0, -80.0, h)
+    elif style == "lon-neg":
+        xs, ys = np.linspace(-350.0, 0.0, w), np.linspace(80.0, -80.0, h)
+    elif style == "lat-out":
+        xs, ys = np.linspace(-170.0, 170.0, w), np.linspace(120.0, -120.0, h)
+    elif style == "nan":
+        xs = np.array(xs)
+        if w:
+            xs[rng.randrange(w)] = np.nan
+    elif style == "huge":
+        xs, ys = xs * 1e12, ys * 1e12
+    elif style == "tiny-step":
+        xs, ys = 5.0 + xs * 1e-9, 5.0 + ys * 1e-9
+    elif style == "int":
+        spec["dtype"] = "int64"
+    elif style == "threshold":
+        c = float(thr)
+        span = max(10.0, abs(c) / 3.0)
+        n = w if axis == "x" else h
+        if mode == "straddle":
+            vals = np.linspace(c - span, c + span, n)
+        elif mode == "above":
+            vals = np.linspace(c + 1.0, c + 1.0 + span, n)
+        else:
+            vals = np.linspace(c - 1.0 - span, c - 1.0, n)
+        xs, ys = np.linspace(-60.0, 60.0, w), np.linspace(40.0, -40.0, h)
+        if axis == "x":
+            xs = vals
+        else:
+            ys = vals[::-1]
+        spec.update(threshold=c, axis=axis, mode=mode)
+    spec["x"] = [float(v) for v in xs]
+    spec["y"] = [float(v) for v in ys]
+    return spec
+
+
+def dedupe(vals):
+    out = []
+    for v in vals:
+        if not any((v is c) or (type(v) is type(c) and (v == c or (v != v and c != c))) for c in out):
+            out.append(v)
+    return out
+
+
+def param_candidates(func, hints):
+    """edge values for the optional parameters of a function: what the source compares them with / looks them up in
+    (`hints`), plus boundary values of the default's type.  Nothing huge: a value is an edge, not a stress test."""
+    import importlib
+    import inspect
+    mod, fn = func.split(".")
+    f = getattr(importlib.import_module("xrspatial." + {"polygonize": "experimental.polygonize"}.get(mod, mod)), fn)
+    out = {}
+    hp = (hints or {}).get("params", {})
+    for p in inspect.signature(f).parameters.values():
+        if p.default is inspect.Parameter.empty or p.kind in (p.VAR_POSITIONAL, p.VAR_KEYWORD):
+            continue
+        d = p.default
+        vals = list(hp.get(p.name, []))
+        nums = [v for v in vals if isinstance(v, (int, float)) and not isinstance(v, bool)]
+        vals += [v + 1 for v in nums] + [v - 1 for v in nums]
+        if isinstance(d, bool):
+            vals += [True, False]
+        elif isinstance(d, (int, float, np.integer, np.floating)):
+            vals += [0, -1, 1, 2, 0.5, 50, float("nan"), float("inf"), float("-inf"), "3", None]
+        elif isinstance(d, str):
+            vals += [d, d.lower(), "bogus", "", None, 0]
+        elif d is None:
+            vals += [None]
+        elif isinstance(d, (list, tuple)):
+            vals += [[], list(d)[:1], None]
+        else:
+            continue
+        out[p.name] = dedupe(vals)
+    return out
+
+
+def n_rasters(func):
+    """how many rasters the recipe of `func` hands over (for the multi-raster malformations)"""
+    if func.startswith("multispectral.") or func in ("zonal.stats", "zonal.crosstab", "zonal.apply", "zonal.crop"):
+        return 2
+    return 1
+
+
+def edge_base(rng, f, backend=None):
+    if backend is None:
+        backend = "dask" if (has_dask_path(f) and rng.random() < 0.2) else "numpy"
+    return dict(func=f, backend=backend, dtype=rng.choice(DTYPES), layout=rng.choice(LAYOUTS),
+                seed=rng.randrange(1 << 30), meta=draw_meta(rng, attrs=rng.choice(ATTR_STYLES[:3])), stream="edge")
+
+
+def far_thresholds(hints):
+    """numbers of the source's comparisons that the default fixture's coordinates (0 … 6) do not reach"""
+    return [t for t in (hints or {}).get("thresholds", []) if abs(t) > max(H, W) + 3]
+
+
+def cross_cases(rng, f, pvals, thresholds, backends=("numpy",), cap=96, stream="edge"):
+    """parameter values x threshold-crossing coordinates: the inputs that drive branch conditions of the form
+    `param == CONSTANT and coordinate.max() > NUMBER`"""
+    combos = []
+    names = sorted(pvals)
+    grid = [dict()]
+    for n in names:
+        grid = [dict(g, **{n: v}) for g in grid for v in pvals[n]]
+    for g in grid:
+        for t in thresholds:
+            for axis in ("x", "y"):
+                for mode in (("above", "straddle") if t >= 0 else ("below", "straddle")):
+                    combos.append((g, t, axis, mode))
+    if len(combos) > cap:
+        combos = rng.sample(combos, cap)
+    cases = []
+    for g, t, axis, mode in combos:
+        for b in backends:
+            c = edge_base(rng, f, backend=b)
+            c.update(stream=stream, params=g, coordspec=coordspec_of(rng, "threshold", (H, W), t, axis, mode),
+                     edge=f"cross:{'/'.join(f'{k}={v}' for k, v in g.items())}:{axis}{mode}{t:g}")
+            cases.append(c)
+    return cases
+
+
+def make_edge_cases(rng, funcs, entries, tier):
+    """rejected and boundary inputs: "never changes the values, coordinates or attributes of the rasters passed to it"
+    also holds when the call raises.  Per function: coordinate styles (descending, non-monotonic, duplicates, NaN, out
+    of the geographic range, crossing the numbers the source compares with), structural malformations (wrong number of
+    dimensions, transposed, empty, mismatching shapes / coordinates of a multi-raster call), edge values of every
+    optional parameter (source-derived and type-derived), and the cross product of source-derived string parameters
+    with threshold-crossing coordinates"""
+    cases = []
+    for f in funcs:
+        # functions that JIT-compile a closure on every call (proximity) or are slow by nature get fewer cases in the
+        # quick tier: an edge case there costs seconds, not milliseconds
+        costly = f in SLOW or f == "polygonize.polygonize"
+        per = dict(quick=(1, 1, 2) if costly else (2, 2, 4),
+                   thorough=(4 if costly else len(COORD_STYLES), 4 if costly else len(STRUCTURAL) + 2,
+                             6 if costly else 16))[tier]
+        hints = (entries.get(f) or {}).get("hints") or {}
+        if f.startswith("local.") or f in ("bump.bump", "convolution.custom_kernel"):
+            styles, structs = [], []          # no DataArray argument with coordinates of its own
+        else:
+            styles = rng.sample(COORD_STYLES[:-1], min(per[0], len(COORD_STYLES) - 1))
+            pool = STRUCTURAL + (STRUCTURAL_MULTI * 2 if n_rasters(f) > 1 else [])
+            structs = rng.sample(pool, min(per[1], len(pool)))
+        far = far_thresholds(hints)
+        for st in styles:
+            c = edge_base(rng, f)
+            c.update(coordspec=coordspec_of(rng, st, (H, W)), edge="coords:" + st)
+            cases.append(c)
+        for t in (far if tier == "thorough" else far[:0]):
+            for axis in ("x", "y"):
+                c = edge_base(rng, f)
+                c.update(coordspec=coordspec_of(rng, "threshold", (H, W), t, axis, "straddle"), edge=f"coords:threshold{t:g}")
+                cases.append(c)
+        for how in structs:
+            c = edge_base(rng, f)
+            c.update(malform=how, edge="struct:" + how)
+            cases.append(c)
+        try:
+            cands = param_candidates(f, hints)
+        except Exception:
+            cands = {}
+        flat = [(n, v) for n, vs in sorted(cands.items()) for v in vs]
+        for n, v in (rng.sample(flat, min(per[2], len(flat))) if flat else []):
+            c = edge_base(rng, f)
+            c.update(params={n: v}, edge=f"param:{n}={v!r}"[:60])
+            cases.append(c)
+        # source-derived string parameters x numbers the source compares coordinates with
+        svals = {n: [v for v in vs if isinstance(v, str)] for n, vs in hints.get("params", {}).items()}
+        svals = {n: vs + ["bogus"] for n, vs in svals.items() if len(vs) >= 2}
+        if svals and far:
+            cases += cross_cases(rng, f, svals, far, backends=("numpy",) if tier == "quick" else ("numpy", "dask"),
+                                 cap=(4 if costly else 24) if tier == "quick" else (48 if costly else 200))
+    return cases
+
+
+def make_targeted_cases(rng, bad, entries, full=False):
+    """a proof obligation broke: the generated program of `f` may write an input.  The translator names the parameter
+    and the branch conditions the offending store sits under (`input_writes` of the report); call `f` with the inputs
+    that drive those conditions -- the constants its parameters are compared with there (and the keys under which the
+    module's tables hold them), coordinates crossing the numbers that coordinate expressions are compared with -- on
+    both backends.  `full` (the search): also every other value the source knows for those parameters."""
+    cases = []
+    for f in bad:
+        e = entries.get(f) or {}
+        general = e.get("hints") or {}
+        seen = set()
+        for iw in e.get("input_writes") or [{}]:
+            gh = iw.get("hints") or {}
+            sig = json.dumps([gh.get("params"), gh.get("thresholds")], sort_keys=True, default=str)
+            if sig in seen:
+                continue
+            seen.add(sig)
+            pvals = {n: list(vs) for n, vs in gh.get("params", {}).items() if vs}
+            if full:
+                for n, vs in pvals.items():
+                    pvals[n] = dedupe(vs + list(general.get("params", {}).get(n, [])) + ["bogus"])[:8]
+            thr = list(gh.get("thresholds", [])) or (far_thresholds(general) if full else [])
+            backends = ("numpy", "dask") if has_dask_path(f) else ("numpy",)
+            if thr:
+                cs = cross_cases(rng, f, pvals, thr, backends=backends, cap=200 if full else 16, stream="targeted")
+            else:
+                cs = []
+                grid = [dict()]
+                for n in sorted(pvals):
+                    grid = [dict(g, **{n: v}) for g in grid for v in pvals[n]]
+                for g in grid[:60 if full else 8]:
+                    for b in backends:
+                        for meta_attrs in (ATTR_STYLES[:3] if full else ATTR_STYLES[:1]):
+                            c = edge_base(rng, f, backend=b)
+                            c.update(stream="targeted", params=g, edge="guard:" + "/".join(f"{k}={v}" for k, v in g.items()))
+                            c["meta"] = draw_meta(rng, attrs=meta_attrs)
+                            cs.append(c)
+            for c in cs:
+                c["targets"] = iw.get("inputs", [])
+                c["guards"] = iw.get("guards", [])[:4]
+            cases += cs
+    return cases
+
+
 def judge(r, res, entries, preds):
     """oracle + correspondence for one observation"""
     c = res["case"]
@@ -1326,18 +2003,32 @@ def judge(r, res, entries, preds):
     key = c["func"]
     st = res["status"].split(":")[0]
     m = c.get("meta") or dict(coords=["scalar"], attrs="plain", cdtype="int64", clayout="C")
+    stream = c.get("stream", "main")
+    extra_tags = [f"stream:{stream}"]
+    if c.get("chunkclass"):
+        extra_tags.append(f"chunks:{c['chunkclass']}")
+    if c.get("kernel") is not None:
+        extra_tags.append(f"kernel:{len(c['kernel'])}x{len(c['kernel'][0]) if c['kernel'] else 0}")
+    if c.get("shape"):
+        extra_tags.append(f"shape:{c['shape'][0]}x{c['shape'][1]}")
+    if c.get("edge"):
+        extra_tags.append("edge:" + (c["edge"].split("=")[0] if c["edge"].startswith("param:") else
+                                     c["edge"].split(":")[0] + ":" + c["edge"].split(":")[1][:24] if c["edge"].startswith(("coords:", "struct:"))
+                                     else c["edge"].split(":")[0]))
+        extra_tags.append("edge-outcome:" + ("returned" if st == "ok" else "rejected"))
     r.case(c, desc=c if len(r.samples) < 6 else None, nontrivial=True,
            tags=[f"fn:{key}", f"backend:{c['backend']}", f"dtype:{c['dtype']}", f"layout:{c['layout']}",
                  f"status:{res['status'] if st != 'ok' else 'ok'}"[:60], f"attrs:{m['attrs']}",
-                 f"coord-dtype:{m['cdtype']}", f"coord-layout:{m['clayout']}"] + [f"coords:{x}" for x in m["coords"]])
-    if st == "raised":
+                 f"coord-dtype:{m['cdtype']}", f"coord-layout:{m['clayout']}"] + [f"coords:{x}" for x in m["coords"]]
+           + extra_tags)
+    if st in ("raised", "raised-at-compute"):
         r.tag(f"raised:{key}:{c['backend']}:{res['status'].split(':')[1]}")
-    if st in ("build-failed", "harness-error"):
-        r.notes.append(f"{key} {c['backend']}/{c['dtype']}/{c['layout']}: {res['status'][:300]}")
-        r.tag("harness-problem")
+    if st in ("build-failed", "harness-error", "harness-timeout", "worker-crashed"):
+        r.notes.append(f"{key} {c['backend']}/{c['dtype']}/{c['layout']} [{stream} {c.get('edge', '')}]: {res['status'][:300]}")
+        r.tag("harness-problem" if st in ("build-failed", "harness-error") else st)
         return
     for n in res["notes"]:
-        if "rechunked" in n or "in place by contract" in n or "shared by reference" in n:
+        if "rechunked" in n or "in place by contract" in n or "shared by reference" in n or "during the call" in n:
             r.tag("note:" + n.split(":")[-1].strip()[:40])
     # ---- the property
     if res["modified"] or res["owner_modified"]:
@@ -1395,14 +2086,26 @@ def run(r, full=False):
     rep = gen_report()
     entries = rep.get("entries", {})
     funcs = sorted(entries)
-    r.rule = ("per public function: (dtype, layout) pairs sampled from {int8..uint64,float32,float64} x {C,F,strided view,"
+    r.rule = ("main stream: per public function (dtype, layout) pairs sampled from {int8..uint64,float32,float64} x {C,F,strided view,"
               "read-only} (thorough: all 40 on numpy) x {numpy,dask}; 6x7 rasters with NaN cells for floats, scalar coords "
-              "and nested attrs; non-trivial = distinct (function, backend, dtype, layout, data seed); plus the primitive "
-              "probes (table entry x 5 dtypes x 4 layouts)")
+              "and nested attrs.  backend stream: every raster function with a Dask path x chunking class {single chunk, 1-cell, "
+              "1-row, 1-column, ragged remainder, thinner than the kernel half-width, uneven, regular} (quick: 3 classes per "
+              "function, all 8 for the functions that take a kernel) x kernel shape {3x3,5x5,7x5,5x7,3x5,5x3,1x1,3x1} on 10x13 "
+              "rasters; Dask in -> Dask out (lazy, blocks adding up to the shape, computes to the shape), NumPy in -> NumPy out.  "
+              "edge stream (rejected and boundary inputs; the arguments are compared whether the call returned or raised): "
+              "coordinate styles {descending, ascending y, non-monotonic, duplicates, geographic, 0..360 longitudes, < -180, "
+              "latitudes beyond 90, NaN, 1e12, 1e-9 steps, integer, crossing a number the source compares with}, structural "
+              "{1-D, 3-D, transposed, empty, single cell/row/column, no coords, bare ndarray, mismatching shape / coordinates "
+              "of the last raster}, edge values of every optional parameter (values the source compares it with or looks it up "
+              "under, boundary values of the default's type), and source-derived string parameters x threshold-crossing "
+              "coordinates.  targeted stream: when the checker rejects a program, the function is called with the values "
+              "that drive the guards of the offending store.  non-trivial = distinct case; plus the primitive, wrapper and "
+              "kind-table probes")
     r.trusted += ["harness/facts_bufprog.py primitive table (probed with np.shares_memory each run)",
                   "numpy / xarray / dask / numba run time (observed, not modelled)"]
     r.assumptions += ["the buffer program abstracts the Python source faithfully (translator trusted; prediction >= observation checked)",
-                      "dask backend: observation only"]
+                      "dask backend: the array backend of the result is proved on the kind programs of the Dask paths (translator "
+                      "trusted, its tables probed); values / coords / attrs unchanged on dask: observation only"]
     for k, e in entries.items():
         if e["status"] != "ok" or e["unknowns"]:
             r.broken.append(f"translator: {k} not fully translated: {e['status']} {e['unknowns'][:2]}")
@@ -1426,13 +2129,36 @@ def run(r, full=False):
     r.extra["meta_not_conforming"] = badmeta
     if bad or badmeta:
         r.broken.append(f"checker rejects the generated program of {bad}; metadata contract broken for {badmeta}")
+    # the backend clause on the proof side: the kind programs of the Dask paths
+    kinds, kerr = dask_kind_verdicts()
+    bad_backend = [f for f, v in kinds.items() if not v["ok"]]
+    r.extra["dask_kind_programs"] = kinds
+    krep = kind_report()
+    for f, e in krep.get("entries", {}).items():
+        if e.get("status") != "ok":
+            r.broken.append(f"kind translator: {f}: {e.get('status')}")
+    if bad_backend:
+        r.broken.append("the Dask path of " + ", ".join(f"{f} (may return: {kinds[f]['kinds']})" for f in bad_backend)
+                        + " may return something that is not a dask collection")
+    run_kind_probes(r, krep)
     # corpus first
     corpus = [b["case"] for b in r.corpus() if "case" in b]
-    cases = corpus + make_cases(r.rng, funcs, r.tier, full=full)
+    cases = list(corpus)
+    if bad and not full:
+        # a rejected program names the function, the parameter and the branch conditions of the offending store: the
+        # inputs that drive those conditions come first …
+        cases += make_targeted_cases(r.rng, bad, entries)
+    if bad_backend and not full:
+        # … and a Dask path that may hand back an in-memory array gets every chunking class x kernel shape, twice
+        cases += make_backend_cases(r.rng, funcs, r.tier, only=set(bad_backend), reps=2)
+    cases += make_cases(r.rng, funcs, r.tier, full=full)
+    cases += make_backend_cases(r.rng, funcs, r.tier)
+    cases += make_edge_cases(r.rng, funcs, entries, r.tier)
     if bad and not full:
         # functions whose program is rejected get the whole matrix right away
-        for _ in range(3):
-            cases += make_cases(r.rng, bad, r.tier, full=True, only_backend="numpy")
+        for f in bad:
+            for _ in range(1 if f in SLOW else 3):
+                cases += make_cases(r.rng, [f], r.tier, full=True, only_backend="numpy")
     avail = [f for f in SEQ_FUNCS if f in entries]
     for _ in range({"quick": 10, "thorough": 60}[r.tier] if avail else 0):
         backend = r.rng.choice(["numpy", "numpy", "dask"])
@@ -1444,6 +2170,9 @@ def run(r, full=False):
     results = run_parallel(cases)
     for res in results:
         judge(r, res, entries, preds)
+    costs = sorted((x["chunk_cost"] for x in results if x.get("chunk_cost")), key=lambda c: -c["cpu"])
+    r.extra["observation_cost"] = dict(processes=len(costs), cpu_s=round(sum(c["cpu"] for c in costs), 1),
+                                       longest=costs[:8])
     r.extra["phase_s"]["observation"] = round(time.time() - t_obs, 1)
     r.extra["observed_functions"] = len(funcs)
     r.extra["not_covered"] = ["cupy / dask-cupy paths", "gpu_rtx", "esri.py", "datashader helpers of utils.py (canvas_like, "
@@ -1451,14 +2180,27 @@ def run(r, full=False):
 
 
 def search(r):
-    """a proof obligation or the correspondence broke: the full dtype x layout matrix, rejected functions first"""
+    """a proof obligation or the correspondence broke and no failing input is known yet: first the inputs the broken
+    programs point at (every value the source knows for the parameters of the guards x threshold-crossing coordinates;
+    every chunking class x kernel for a Dask path that may return an in-memory array), then the thorough edge stream
+    and the full dtype x layout matrix, rejected functions first"""
     rep = gen_report()
     entries = rep.get("entries", {})
     funcs = sorted(entries)
     preds, _ = predictions(funcs)
     bad = [f for f, p in preds.items() if p and not p["ok"]]
+    kinds, _ = dask_kind_verdicts()
+    bad_backend = [f for f, v in kinds.items() if not v["ok"]]
+    first = make_targeted_cases(r.rng, bad, entries, full=True)
+    if bad_backend:
+        first += make_backend_cases(r.rng, funcs, "thorough", only=set(bad_backend), reps=4)
+    first += make_edge_cases(r.rng, bad + bad_backend, entries, "thorough")
+    for res in run_parallel(first):
+        judge(r, res, entries, preds)
+    if r.failures:
+        return
     order = bad + [f for f in funcs if f not in bad]
-    cases = make_cases(r.rng, order, "thorough", full=True)
+    cases = make_cases(r.rng, order, "thorough", full=True) + make_backend_cases(r.rng, funcs, "thorough")
     for res in run_parallel(cases):
         judge(r, res, entries, preds)
 
